@@ -167,12 +167,12 @@ fn fill_buffer(buf: &mut [u8], fill: u8) {
 fn body(c: &FdCase, stage_fd: i32) -> Outcome {
     let mut o = Outcome::default();
     mark(stage_fd, ST_SETUP);
-    let dir = CaseDir::new();
-    // distinct temp files
+    // distinct temp files (created once per worker, opened per case)
+    let pool = pool_dir();
     let mut sent: Vec<OwnedRaw> = Vec::new();
     let mut sent_ids = Vec::new();
     for i in 0..c.nfds {
-        let p = cstring(&format!("{}/f{}", dir.path, i));
+        let p = cstring(&format!("{pool}/f{i}"));
         let fd = unsafe { libc::open(p.as_ptr(), libc::O_CREAT | libc::O_RDWR | libc::O_CLOEXEC, 0o600) };
         if fd < 0 {
             o.inconclusive = Some(format!("open temp file: errno {}", errno()));
@@ -367,8 +367,29 @@ fn body(c: &FdCase, stage_fd: i32) -> Outcome {
     drop(a);
     drop(b);
     drop(g);
-    drop(dir);
     o
+}
+
+static POOL: std::sync::OnceLock<String> = std::sync::OnceLock::new();
+
+/// `/tmp/verif-c16-<pid>-<worker>-files/` holding the 32 distinct files whose descriptors are
+/// passed (creating 32 files per case would dominate the run time). Removed by `remove_pool`.
+pub fn pool_dir() -> &'static str {
+    POOL.get_or_init(|| {
+        let p = format!("/tmp/verif-c16-{}-{}-files", std::process::id(), WORKER.load(std::sync::atomic::Ordering::Relaxed));
+        let _ = std::fs::remove_dir_all(&p);
+        std::fs::create_dir_all(&p).expect("create pool dir");
+        for i in 0..32 {
+            std::fs::write(format!("{p}/f{i}"), format!("file {i}\n")).expect("create pool file");
+        }
+        p
+    })
+}
+
+pub fn remove_pool() {
+    if let Some(p) = POOL.get() {
+        let _ = std::fs::remove_dir_all(p);
+    }
 }
 
 enum ChildEnd {
@@ -399,6 +420,12 @@ fn run_in_child(c: &FdCase) -> ChildEnd {
         unsafe {
             libc::close(res[0]);
             libc::close(stg[0]);
+            // a fault here is an answer, not something to journal or dump
+            let no_core = libc::rlimit { rlim_cur: 0, rlim_max: 0 };
+            libc::setrlimit(libc::RLIMIT_CORE, &no_core);
+            for sig in [libc::SIGSEGV, libc::SIGBUS, libc::SIGILL, libc::SIGABRT, libc::SIGFPE] {
+                libc::signal(sig, libc::SIG_DFL);
+            }
         }
         let o = body(c, stg[1]);
         let js = serde_json::to_vec(&o).unwrap_or_default();
@@ -456,6 +483,7 @@ fn signame(s: i32) -> String {
 }
 
 pub fn run_fdpass(c: &FdCase) -> CaseResult {
+    let _ = pool_dir(); // before any fork, so that children inherit it
     let inproc = std::env::var("C16_FDPASS_INPROCESS").map(|v| v == "1").unwrap_or(false);
     let outcome = if inproc {
         body(c, -1)
